@@ -21,7 +21,7 @@ import (
 
 func init() {
 	sections["walletfile"] = func(c *Ctx) error {
-		c.Rep.Rule = "wallets x key sizes {16,32}: round trip, all truncation lengths, every byte x {^0x01,^0x80,^0xff}, wrong keys of both sizes, invalid key lengths, empty file; PEM round trip; non-trivial = distinct (case kind, position)"
+		c.Rep.Rule = "wallets x key sizes {16,32}: round trip, all truncation lengths, every byte x {^0x01,^0x80,^0xff}, wrong keys of both sizes (random, one bit off, zero-extended / doubled / halves of the right key, keys with a zero half), invalid key lengths, empty file; PEM round trip; non-trivial = distinct (case kind, position)"
 		dir, err := os.MkdirTemp("", "vwf")
 		if err != nil {
 			return err
@@ -49,6 +49,11 @@ func init() {
 				wl, _ := wallet.New()
 				key := make([]byte, ks)
 				rand.Read(key)
+				if ks == 32 && wi%2 == 1 { // a key whose second half is zero: its first half is a valid 16-byte key
+					for i := 16; i < 32; i++ {
+						key[i] = 0
+					}
+				}
 				keyHex := hex.EncodeToString(key)
 				path := filepath.Join(dir, fmt.Sprintf("w%d_%d", wi, ks))
 				h := fileoperations.New(fileoperations.Config{WalletPath: path, WalletPasswd: keyHex, WalletPemPath: path + ".pem"}, aeswrapper.New())
@@ -117,6 +122,24 @@ func init() {
 						out, got := read(path, hex.EncodeToString(k2))
 						judge("wrongkey", r, true, true, true, false, out, got)
 					}
+				}
+				// related keys of the other allowed length: zero-extended, doubled, halves. Each tried twice (a
+				// second use in the same process must not behave differently from the first) and followed by a
+				// read with the right key.
+				related := [][]byte{}
+				if ks == 16 {
+					related = append(related, append(append([]byte{}, key...), make([]byte, 16)...), append(append([]byte{}, key...), key...),
+						append(make([]byte, 16), key...))
+				} else {
+					related = append(related, append([]byte{}, key[:16]...), append([]byte{}, key[16:]...))
+				}
+				for ri, k2 := range related {
+					for rep := 0; rep < 2; rep++ {
+						out, got := read(path, hex.EncodeToString(k2))
+						judge("relatedkey", ri, true, true, true, false, out, got)
+					}
+					out, got := read(path, keyHex)
+					judge("rightkey-after-related", ri, true, true, true, true, out, got)
 				}
 				for _, badLen := range []int{0, 1, 15, 17, 24, 31, 33, 64} {
 					out, got := read(path, hex.EncodeToString(make([]byte, badLen)))
